@@ -48,6 +48,7 @@ def gen_def(r, allow_kwonly=True, allow_kwargs=True, method=None):
     return {
         "name": "call_peril", "method": method, "params": params, "kwargs": kwargs, "doc": doc, "coverage": coverage,
         "style": style, "summary": "Summary of the thing.",
+        "trailer": r.random() < 0.3, "brace_opts": r.random() < 0.2,
     }  # fmt: skip
 
 
@@ -67,12 +68,19 @@ def docstring(f, indent):
                 lines.append("%s : %s" % (e["name"], e.get("typ", "object")))
                 lines.append("    " + e["prose"])
             lines.append("")
+        if f.get("trailer"):
+            lines += ["Raises", "------", "ValueError", "    when the input is bad", ""]
     else:
         if f["doc"]:
             lines.append("Args:")
-            for e in f["doc"]:
-                lines.append("  %s%s: %s" % (e["name"], " (%s)" % e["typ"] if "typ" in e else "", e["prose"]))
+            for i, e in enumerate(f["doc"]):
+                prose = e["prose"]
+                if f.get("brace_opts") and i == 0 and e.get("typ") == "str":
+                    prose = "{'cos', 'exp', 'step', 'linear'}"  # PyTorch-style option list
+                lines.append("  %s%s: %s" % (e["name"], " (%s)" % e["typ"] if "typ" in e else "", prose))
             lines.append("")
+        if f.get("trailer"):
+            lines += ["Raises:", "  ValueError: when the input is bad", "", "Example:", "  >>> call_peril()", ""]
     body = ("\n" + pad).join(lines)
     return '%s"""\n%s%s\n%s"""\n' % (pad, pad, body, pad)
 
